@@ -613,3 +613,19 @@ Proof.
   destruct Hp as [[->| ->] Hne]; [|congruence].
   specialize (Hx [97%N] (or_introl eq_refl)). discriminate Hx.
 Qed.
+
+(* ---------------------------------------------------------------- a concrete oracle for the Examples *)
+(* A small concrete oracle: glob "a" matches path "a" (posix) and "a"/"A" (windows), "*" matches
+   every non-empty path, lower maps "A" to "a"; regex "a" matches paths starting with "a"
+   (or "A" when case-insensitive), ".*" everything. *)
+Definition ex_lower (p : bytes) : bytes := map (fun c => if N.eqb c 65 then 97%N else c) p.
+Definition ex_mp (path pat : bytes) : bool := if beqb pat star then nonemptyb path else beqb pat path.
+Definition ex_mw (path pat : bytes) : bool :=
+  if beqb pat star then nonemptyb path else beqb (ex_lower pat) (ex_lower path).
+Definition ex_rm (cs : bool) (r p : bytes) : bool :=
+  if beqb r dotstar then true
+  else match r, p with
+       | [x], y :: _ => if cs then N.eqb x y else beqb (ex_lower [x]) (ex_lower [y])
+       | _, _ => false
+       end.
+
